@@ -302,6 +302,10 @@ impl Header {
         if !flags_ok {
             return Err(Error::InvalidHeader.into());
         }
+        // These packets have no variable header and no payload.
+        if matches!(typ, PacketType::Pingreq | PacketType::Pingresp) && remaining_len != 0 {
+            return Err(Error::InvalidHeader.into());
+        }
         Ok(Header {
             typ,
             dup: false,
